@@ -618,28 +618,30 @@ def load_findings():
 
 def replay_findings(res, drv, orc, findings):
     """every open finding's witnesses are replayed on the implementation and on the specification at the start of every run"""
-    for kf in findings:
+    allc = [(kf, c) for kf in findings for c in kf["witness"]["cases"]]
+    rows = evaluate(drv, orc, [c["text"] for _, c in allc])
+    bits = sorted({kf["witness"]["bit"] for kf in findings if "bit" in kf["witness"]})
+    vs = {b: variant(orc, 1 << b, [c["text"] for _, c in allc]) for b in bits}
+    still, total = {}, {}
+    for i, ((kf, c), r) in enumerate(zip(allc, rows)):
         w = kf["witness"]
-        cases = w["cases"]
-        rows = evaluate(drv, orc, [c["text"] for c in cases])
-        still = 0
-        for c, r in zip(cases, rows):
-            verdict, payload = split_ast(r["impl_ast"])
-            crate = "Y" if verdict == "ok" else "N"
-            if "bit" in w:
-                v1 = variant(orc, 1 << w["bit"], [r["text"]])[0]
-                if crate == c["crate"] and crate != r["spec"] and v1 == crate:
-                    still += 1
-            elif "shape" in w:
-                if verdict == "ok" and payload == w["shape"]:
-                    still += 1
-        if still == len(cases):
-            res.known(kf)
-        elif still == 0:
-            res.notes.append("finding %s apparently repaired (none of its %d witnesses fails any more)" % (kf["id"], len(cases)))
-        else:
-            res.known(kf)
-            res.notes.append("finding %s: only %d of %d witnesses still fail" % (kf["id"], still, len(cases)))
+        verdict, payload = split_ast(r["impl_ast"])
+        crate = "Y" if verdict == "ok" else "N"
+        total[kf["id"]] = total.get(kf["id"], 0) + 1
+        ok = False
+        if "bit" in w:
+            ok = crate == c["crate"] and crate != r["spec"] and vs[w["bit"]][i] == crate
+        elif "shape" in w:
+            ok = verdict == "ok" and payload == w["shape"]
+        still[kf["id"]] = still.get(kf["id"], 0) + (1 if ok else 0)
+    for kf in findings:
+        n, k = total.get(kf["id"], 0), still.get(kf["id"], 0)
+        if k == 0:
+            res.notes.append("finding %s apparently repaired (none of its %d witnesses fails any more)" % (kf["id"], n))
+            continue
+        res.known(kf)
+        if k < n:
+            res.notes.append("finding %s: only %d of %d witnesses still fail" % (kf["id"], k, n))
 
 
 def control_table(res, drv, orc):
@@ -659,6 +661,11 @@ def run(tier, seed):
     tm = {}
     t0 = time.time()
     proved = common.prove(res, PROP, PROP_FILE, [EXTRACT])
+    if not proved:
+        # a broken theorem must not leave a stale oracle behind: the extraction target does not depend on the proofs
+        ok, log = common.coq_build([EXTRACT])
+        if not ok:
+            res.notes.append("the model itself no longer builds (%s); the oracle may be stale" % common.failing_coq_item(log))
     tm["prove+audit"] = round(time.time() - t0, 1); t0 = time.time()
     drv = common.build_harness("c03")
     orc = common.build_oracle("grammar", ["grammar_model"])
@@ -689,7 +696,7 @@ def run(tier, seed):
         e["accepted"] += 1 if r["impl_ast"].startswith("Ok") else 0
     # vm_compute slice: guards the extraction step
     short = [t for c, t in uniq if len(t) <= 24 and c in ("probe", "abnf-sample", "char-edit", "token-edit")]
-    sl = rng.sample(short, min(len(short), 40))
+    sl = rng.sample(short, min(len(short), 34))
     exprs = []
     for t in sl:
         cps = common.coq_list([ord(ch) for ch in t])
